@@ -40,6 +40,9 @@ func NewCluster(w *World, n int) *Cer {
 	c := &Cer{W: w, L: NewLoop(w), N: n}
 	for i := 0; i < n; i++ {
 		name := fmt.Sprintf("node_%d", i)
+		if w.NameOf != nil {
+			name = w.NameOf(i)
+		}
 		w.AddNode(name)
 		a := w.AddAir(name)
 		if err := a.Open(true); err != nil {
